@@ -16,6 +16,8 @@ type rcur struct {
 	avail *Lin // absolute end of the region proven to exist; nil = nothing proven
 	// countChecked: a check at this cursor position bounded the u32 count found here
 	countChecked bool
+	// countPer: bytes per element that check demanded
+	countPer int
 	// checkedVars: count variables bounded against the remaining input
 	checkedVars map[string]bool
 	// pendingRec: a nested record was decoded at the cursor and not yet stepped over
@@ -234,6 +236,7 @@ func (l *Lifter) brBlock(stmts []ast.Stmt, cur *rcur, counts map[string]*countVa
 				for t, k := range e.T {
 					if k > 0 && t == "wirelen(at)" {
 						cur.countChecked = true
+						cur.countPer = k
 					}
 					if k > 0 && strings.HasPrefix(t, "val(") {
 						if cur.checkedVars == nil {
@@ -599,6 +602,13 @@ func (l *Lifter) brAssign(x *ast.AssignStmt, rest []ast.Stmt, cur *rcur, counts 
 						if sl, ok := t.Underlying().(*types.Slice); ok {
 							if st, ok := sl.Elem().Underlying().(*types.Struct); ok && st.NumFields() == 0 {
 								a.ZeroSize = true
+							}
+						}
+						// the count check may not demand more per element than the
+						// smallest encoding of an element occupies
+						if sl, ok := t.Underlying().(*types.Slice); ok && cur.countChecked && cur.countPer > 0 {
+							if m := l.minWire(sl.Elem(), 0); m >= 0 && cur.countPer > m {
+								l.fail("overcheck", dst, pos, "the count check before make(%s) demands %d byte(s) per element, but an element of this type can occupy as little as %d on the wire: a valid encoding with more elements than bytes that follow is rejected", dst, cur.countPer, m)
 							}
 						}
 						// bounded iff a later-needed bulk check already ran: never, when make comes first
@@ -1177,4 +1187,63 @@ func (l *Lifter) prefixReject(s ast.Stmt, prefix string) bool {
 	}
 	l.fail("prefixreject", "", s.Pos(), "the decoder returns %s when the length prefix is %s %s: a body of another length, as a newer schema version writes it, is refused instead of decoded up to the first unknown index", Canon(ret.Results[0]), b.Op, Canon(k))
 	return true
+}
+
+
+// minWire: the least number of bytes a value of the (generated or basic) Go
+// type occupies on the wire, per the format: fixed widths for scalars, 4 for
+// the count of a string, array or map, 4+1 for an empty message (length and
+// terminator) and for a union (length and discriminator), the sum over the
+// fields for a struct. -1 when the type is not one the rule knows.
+func (l *Lifter) minWire(t types.Type, depth int) int {
+	if t == nil || depth > 6 {
+		return -1
+	}
+	if nt, ok := t.(*types.Named); ok {
+		if nt.Obj().Pkg() != nil && nt.Obj().Pkg().Path() == "time" && nt.Obj().Name() == "Time" {
+			return 8
+		}
+		if l.RecClass != nil {
+			switch l.RecClass(nt.Obj().Name()) {
+			case "message", "union":
+				return 5
+			case "struct":
+				st, ok := nt.Underlying().(*types.Struct)
+				if !ok {
+					return -1
+				}
+				sum := 0
+				for i := 0; i < st.NumFields(); i++ {
+					m := l.minWire(st.Field(i).Type(), depth+1)
+					if m < 0 {
+						return -1
+					}
+					sum += m
+				}
+				return sum
+			}
+		}
+	}
+	switch u := t.Underlying().(type) {
+	case *types.Basic:
+		switch u.Kind() {
+		case types.Bool, types.Uint8, types.Int8:
+			return 1
+		case types.Uint16, types.Int16:
+			return 2
+		case types.Uint32, types.Int32, types.Float32:
+			return 4
+		case types.Uint64, types.Int64, types.Float64:
+			return 8
+		case types.String:
+			return 4
+		}
+	case *types.Slice, *types.Map:
+		return 4
+	case *types.Array:
+		if b, ok := u.Elem().Underlying().(*types.Basic); ok && b.Kind() == types.Uint8 && u.Len() == 16 {
+			return 16
+		}
+	}
+	return -1
 }
